@@ -230,6 +230,14 @@ end
 /-- the literal chain a collection built by `steps` over `from_vec(src)` has -/
 def litChain (src : List Val) (steps : List Step) : List (Node Part) := applySteps [vecSource src] steps
 
+/-- the same program over a streamed file source with `per` lines per shard -/
+def litChainFile (src : List Val) (per : Nat) (steps : List Step) : List (Node Part) :=
+  applySteps [fileSource src per] steps
+def runSeqFile (src : List Val) (per : Nat) (steps : List Step) : M Part :=
+  execSeq (optimise (litChainFile src per steps))
+def runParFile (src : List Val) (per : Nat) (steps : List Step) (n : Nat) : M Part :=
+  execPar List.flatten (optimise (litChainFile src per steps)) n
+
 def runSeq (src : List Val) (steps : List Step) : M Part := execSeq (optimise (litChain src steps))
 def runPar (src : List Val) (steps : List Step) (n : Nat) : M Part :=
   execPar List.flatten (optimise (litChain src steps)) n
